@@ -51,6 +51,19 @@ def foB (T : Table) : Nat → Nat → Bool
     | none => false
     | some ty => ty.isFO && ty.tupleOk T && (ty.children T).all (foB T n)
 
+def Ty.isRFO : Ty → Bool
+  | .integer | .binary | .reference | .resource _ | .tuple _ | .part _ _ | .union _ | .cycle _ => true
+  | _ => false
+
+/-- first-order with recursion: only int/bin/ref/resource/tuple/partial/union/`Cycle` nodes are
+reachable (no callable, process or variable), explored `n` levels deep. -/
+def rfoB (T : Table) : Nat → Nat → Bool
+  | 0, _ => false
+  | n + 1, t =>
+    match T.types[t]? with
+    | none => false
+    | some ty => ty.isRFO && ty.tupleOk T && (ty.children T).all (rfoB T n)
+
 /-- closed and contractive below the boundaries whose guard flags are `gs` (top first:
 `gs[d-1]` = "a constructor has been crossed since the d-th enclosing boundary"). -/
 def closedB (T : Table) : Nat → List Bool → Nat → Bool
@@ -91,6 +104,7 @@ def PartsDistinct (T : Table) : Prop := T.partsDistinctB = true
 def Ordered (T : Table) : Prop := T.orderedB = true
 def FO (T : Table) (t : Nat) : Prop := ∃ n, foB T n t = true
 def Closed (T : Table) (t : Nat) : Prop := ∃ n, closedB T n [] t = true
+def RFO (T : Table) (t : Nat) : Prop := ∃ n, rfoB T n t = true
 
 instance (T : Table) : Decidable (Ordered T) := inferInstanceAs (Decidable (_ = true))
 
